@@ -150,17 +150,17 @@ type World struct {
 	YP     *params.YouParams
 	U      *mon.Universe
 
-	userAddrs []common.Address
-	userKeys  []*ecdsa.PrivateKey
-	valAddrs  map[int]common.Address
-	userIdx   map[common.Address]int
-	nonces    map[common.Address]uint64
-	contracts []Deployed
-	valKey    map[common.Address]int // validator main address -> key index
-	nextVal   int
+	userAddrs  []common.Address
+	userKeys   []*ecdsa.PrivateKey
+	valAddrs   map[int]common.Address
+	userIdx    map[common.Address]int
+	nonces     map[common.Address]uint64
+	contracts  []Deployed
+	valKey     map[common.Address]int // validator main address -> key index
+	nextVal    int
 	lastNewVal int
-	hub       common.Address
-	fresh     int
+	hub        common.Address
+	fresh      int
 }
 
 func NewWorld(r *rand.Rand, keys env.Keyring, sc *Scenario) *World {
